@@ -231,7 +231,11 @@ func runC19(t *testing.T, tp *simrt.Tape, keepTrace bool, gcMode bool) hx.Result
 	var changes []change
 	for i := 0; i < nChanges; i++ {
 		c := change{p: tp.Gen(wPaths), sleep: sleeps[tp.Gen(len(sleeps))]}
-		switch tp.Gen(7) {
+		switch tp.Gen(8) {
+		case 7:
+			// a file that is not a shard the builder would write appears under a
+			// *.zoekt name the watcher has to parse (garbage content)
+			c.kind = "odd-file"
 		case 6:
 			// replaced by a file that carries an OLDER mtime than the loaded version
 			// (two overlapping builds finishing out of order, cp -p / rsync -a restore)
@@ -447,6 +451,12 @@ func runC19(t *testing.T, tp *simrt.Tape, keepTrace bool, gcMode bool) hx.Result
 			for _, c := range changes {
 				simrt.Sleep(c.sleep)
 				switch c.kind {
+				case "odd-file":
+					name := []string{"x_.zoekt", "_v.zoekt", "stray_v16.zoekt", "notes_vNext.00000.zoekt", ".zoekt"}[c.p%5]
+					if err := simos.WriteFile(filepath.Join(dir, name), []byte("not a shard"), 0o644); err != nil {
+						panic(err)
+					}
+					continue
 				case "write", "write-older":
 					writeShard(c.p, nextVer, c.kind == "write-older")
 					disk[c.p] = &diskFile{ver: nextVer, tomb: map[string]bool{}}
